@@ -5,6 +5,17 @@
 //! thread at a named site; `failpoint` lets a harness make a named step fail.
 //! Without an installed sink every hook is a no-op.
 
+pub mod btree;
+pub mod clock;
+pub mod integrity;
+pub mod oracle;
+pub mod pipeline;
+pub mod retention;
+pub mod sst;
+pub mod tree;
+pub mod vlog;
+pub mod wal;
+
 use std::sync::atomic::{AtomicU64, Ordering};
 use std::sync::{Arc, RwLock};
 
